@@ -81,6 +81,7 @@ def make_process_line(sched):
             self.started = False
         def start(self):
             assert not self.started, "process started twice"
+            sched.yield_()          # starting a process is slow: anything else may run meanwhile
             self.started = True
             self._alive = True
             line = pickle.loads(pickle.dumps(self._line))   # spawn: the child works on its own copy
@@ -99,6 +100,7 @@ def make_process_line(sched):
                     cb = self._callback
                     sched.spawn(f"cb-{self.name}", lambda: cb(self), daemon=True)
             sched.spawn(self.name, body, daemon=True)
+            sched.yield_()
         def is_alive(self): return self._alive
         def join(self, timeout=None):
             sched.wait_until(lambda: not self._alive, on=f"{self.name}.join")
@@ -182,17 +184,26 @@ def who():
         return p.name if p else "main"
     return os.getpid()
 
+KINDS = {"Injected": InjectedError, "AssertionError": AssertionError, "EOFError": EOFError, "BrokenPipeError": BrokenPipeError,
+         "FileNotFoundError": FileNotFoundError, "ValueError": ValueError, "KeyError": KeyError, "TypeError": TypeError,
+         "TimeoutError": TimeoutError, "RuntimeError": RuntimeError, "IndexError": IndexError}
+
+def make_exc(kind, item):
+    cls = KINDS[kind]
+    return cls(item) if cls is InjectedError else cls(f"injected failure for item {item}")
+
 class TagFilter:
     """f(item): raises for items in `raising`; yields `fan[item]` outputs (as a generator) for items in `fan`;
     otherwise returns the single output (item, 0, worker)."""
-    def __init__(self, raising=(), fan=None, delay=0.0):
+    def __init__(self, raising=(), fan=None, delay=0.0, kinds=None):
         self.raising, self.fan, self.delay = set(raising), dict(fan or {}), delay
+        self.kinds = dict(kinds or {})   # item -> name in KINDS (default: InjectedError)
     def filter(self, item):
         if self.delay:
             import time; time.sleep(self.delay)
         w = who()
         if item in self.raising:
-            raise InjectedError(item)
+            raise make_exc(self.kinds.get(item, "Injected"), item)
         if item in self.fan:
             return ((item, j, w) for j in range(self.fan[item]))
         return (item, 0, w)
